@@ -211,6 +211,13 @@ class PriorityLock(Lock, BasePriorityObject, LockHelper):
         """Make sure the highest priorty waiter will run."""
         if not self._waiters:
             return
+        # A waiter which has been woken up but has not run yet is still queued.
+        # It will take the lock, or pass it on if it gives up, so another one
+        # must not be woken: unlike a FIFO queue, the head of a priority queue
+        # can change (a more urgent waiter can arrive) before the woken waiter runs.
+        for fut, _ in self._waiters:
+            if fut.done() and not fut.cancelled():
+                return
         fut, _ = self._waiters.peek()
 
         if not fut.done():  # pragma: no branch
